@@ -516,7 +516,7 @@ def gen_content(rng, tag):
     return b
 
 
-SWEEP_SET = {'quick': 'a file / archive member / nested-archive member of just over 10 000 000 bytes (the readers\' default size limit) with the limit raised to 25 000 000, and with the default limit',
+SWEEP_SET = {'quick': 'a file / archive member / nested-archive member of just over 10 000 000 bytes (the readers\' default size limit) with the limit raised to 25 000 000, and with the default limit; a directory whose .index maps the request to another file, with useIndexFile on and off and another URL before / after it in the same call',
              'thorough': 'same'}
 
 
@@ -534,6 +534,15 @@ def sweep(tier):
                 scn['zipext'] = '.zip'
             if cap:
                 scn['maxMibSize'] = cap
+            out.append(scn)
+    # the .index mapping switched off by the caller, with another source URL before or after the directory in the same call
+    for dec in ('zip-before', 'dir-before', 'zip-after', None):
+        for use in (False, True):
+            scn = {'kind': 'dir', 'request': 'FOO-MIB', 'options': {}, 'listing_seed': 11, 'url_style': 'bare', 'index': [['FOO-MIB', 'QUX.dat']], 'useIndexFile': use,
+                   'tree': [{'path': 'FOO-MIB.txt', 'hex': _hex(b'FOO-MIB DEFINITIONS ::= BEGIN\nEND\n'), 'mtime': SEASONS[1]},
+                            {'path': 'QUX.dat', 'hex': _hex(b'QUX-MIB DEFINITIONS ::= BEGIN\nEND\n'), 'mtime': SEASONS[2]}]}
+            if dec:
+                scn['decoy'] = dec
             out.append(scn)
     return out
 
